@@ -27,6 +27,7 @@ META = {
                      "NumPy scalar division by zero yields inf/nan without raising"],
     "assumptions": ["importance values are finite reals"],
 }
+META["explanation"] += ' HAZARD: constructs that do not mean what they look like, met in the analysed code (defaults evaluated once, class-level containers changed through self, dict.fromkeys with a shared mutable value, late-binding lambdas, truth value of objects that define __len__) are reported by every check.'
 MIN_INSTANCES = {"FORMULA": 4, "ZERODIV": 2, "VAR": 4, "BOUND": 2}
 
 
